@@ -256,8 +256,23 @@ impl<'a> Planner<'a> {
             self.collect_aggregates(&item.expr, idx, &mut aggregates);
         }
 
+        // The aggregation emits its rows in the order of the select list: every aggregate at the
+        // position of its select item, the group keys in the remaining positions, in the order
+        // they are listed here -- so the keys that are selected come first, in select order.
+        let mut ordered_keys: Vec<BoundExpression> = Vec::with_capacity(group_by.len());
+        for item in columns {
+            if group_by.contains(&item.expr) && !ordered_keys.contains(&item.expr) {
+                ordered_keys.push(item.expr.clone());
+            }
+        }
+        for key in group_by {
+            if !ordered_keys.contains(key) {
+                ordered_keys.push(key.clone());
+            }
+        }
+
         let op = LogicalOperator::Aggregate(AggregateOp::new(
-            group_by.to_vec(),
+            ordered_keys,
             aggregates,
             input_props.schema.clone(),
             output_schema.clone(),
